@@ -1,7 +1,7 @@
 (* C37 -- published test vectors evaluated on the reference definitions of Model.v / Keccak.v / Chacha.v.
    These are TESTS of the definitions (finite, by vm_compute), not theorems about them. *)
 From Coq Require Import String Arith NArith List Bool.
-From V Require Import C37.Model C37.Keccak C37.Chacha.
+From V Require Import C37.Model C37.Keccak C37.Chacha C37.MoreHashes.
 Import ListNotations.
 Open Scope N_scope.
 
@@ -91,3 +91,18 @@ Example aead_rfc8439 :
   (unhex "d31a8d34648e60db7b86afbc53ef7ec2a4aded51296e08fea9e2b5a736ee62d63dbea45e8ca9671282fafb69da92728b1a71de0a9e060b2905d6a5b67ecd3b3692ddbd7f2d778b8c9803aee328091b58fab324e4fad675945585808b4831d7bc3ff4def08e4b7a9de576d26586cec64b6116",
    unhex "1ae10b594f09e26a7e902ecbd0600691").
 Proof. vm_compute. reflexivity. Qed.
+
+(* RFC 7693 appendix A and B ("abc"), and the empty message *)
+Example blake2_vectors :
+  hex_encode (blake2b512 (codes "abc")) = codes "ba80a53f981c4d0d6a2797b69f12f6e94c212f14685ac4b74b12bb6fdbffa2d17d87c5392aab792dc252d5de4533cc9518d38aa8dbf1925ab92386edd4009923" /\
+  hex_encode (blake2s256 (codes "abc")) = codes "508c5e8c327c14e2e1a72ba34eeb452f37458b209ed63a294d999b4c86675982" /\
+  hex_encode (blake2b512 []) = codes "786a02f742015903c6c6fd852552d272912f4740e15847618a86e217f71f5419d25e1031afee585313896444934eb04b903a685b1448b755d56f701afe9be2ce" /\
+  hex_encode (blake2s256 []) = codes "69217a3079908094e11121d042354a7c1f55b6482ca1a51e1b250dfd1ed0eef9".
+Proof. vm_compute. repeat split. Qed.
+(* the test values of the RIPEMD-160 paper *)
+Example ripemd160_vectors :
+  hex_encode (ripemd160 []) = codes "9c1185a5c5e9fc54612808977ee8f548b2258d31" /\
+  hex_encode (ripemd160 (codes "abc")) = codes "8eb208f7e05d987a9b044a8e98c6b087f15a0bfc" /\
+  hex_encode (ripemd160 (codes "message digest")) = codes "5d0689ef49d2fae572b881b123a85ffa21595f36" /\
+  hex_encode (ripemd160 (codes nist2)) = codes "12a053384a9c0c88e405a06c27dcf49ada62eb2b".
+Proof. vm_compute. repeat split. Qed.
